@@ -67,7 +67,10 @@ class Ctx:
             d = os.environ.get("VERIF_FACTS_DIR") if config == "default" else None
             if not d:
                 d = extract.ensure(config)
-            self._facts[k] = mir.Facts(d, names)
+            fb = None
+            if config not in ("default", "ffi") and not os.environ.get("VERIF_FACTS_DIR"):
+                fb = extract.ensure("default")      # configurations that build one package only borrow the other crates from the default build
+            self._facts[k] = mir.Facts(d, names, fallback=fb)
         return self._facts[k]
 
     def rules(self, name):
